@@ -117,6 +117,7 @@ pub unsafe extern "C" fn read(fd: c_int, buf: *mut c_void, count: size_t) -> ssi
                     set_errno(e);
                     return -1;
                 }
+                ReadAction::Stall => fpsim_rt::sched::stall_forever(),
             }
         }
     }
